@@ -19,6 +19,9 @@ var plainFields = []string{
 	"github.com/wundergraph/graphql-go-tools/v2/pkg/engine/resolve.SingleFlightItem.err",
 	"github.com/wundergraph/graphql-go-tools/v2/pkg/engine/resolve.SingleFlightItem.statusCode",
 	"github.com/wundergraph/graphql-go-tools/v2/pkg/engine/resolve.SingleFlightItem.responseHeaders",
+	// a plan is built and post-processed by one request and executed by others (plan cache): the
+	// post-processor's writes to the fetch tree are visible steps
+	"github.com/wundergraph/graphql-go-tools/v2/pkg/engine/resolve.GraphQLResponse.Fetches",
 }
 
 var realResolve = "REAL (instrumented): v2/pkg/engine/resolve"
